@@ -1,6 +1,19 @@
 //! C01 — int<->int conversions: correspondence stream `conv` + native oracle (specConv in i128).
-use crate::conv_table::TABLE;
-use crate::util::*;
+#[path = "../util.rs"]
+mod util;
+#[path = "../conv_table.rs"]
+#[allow(warnings)]
+mod conv_table;
+use conv_table::TABLE;
+use util::*;
+
+fn main() {
+    let a = Args::parse();
+    match a.stream.as_str() {
+        "conv" => run(&a),
+        s => { eprintln!("unknown stream {}", s); std::process::exit(2); }
+    }
+}
 
 pub const INTS: [&str; 12] = ["i8", "i16", "i24", "i32", "i48", "i64", "u8", "u16", "u24", "u32", "u48", "u64"];
 
